@@ -27,3 +27,12 @@ contract(M, 'tm_simulate_word', {'T': 'TM', 'word': 'Word', 'max_steps': 'Int'},
          types={'result': 'List[(State,List[Symbol],Int)]'},
          loops={1: {'ghost': 'i', 'invariant': _INV + _TRACE}},
          theories=['word', 'tm'], props=['C11', 'C15'])
+
+_ACC = '(over(T.Sigma, w) and wlen(w) %s and tm_accepted(T, w, max_steps))'
+contract(M, 'tm_words_up_to_n', {'T': 'TM', 'n': 'Int', 'max_steps': 'Int'}, returns='Set[Word]', defaults={'max_steps': '1000'},
+         requires=['tm_wf(T)', 'max_steps >= 0', 'n >= 0'],
+         ensures=['all((w in result) == %s for w in allwords())' % (_ACC % '<= n')],
+         types={'result': 'Set[Word]'},
+         loops={1: {'ghost': 'i', 'invariant': ['all((w in result) == %s for w in allwords())' % (_ACC % '< i'), '0 <= i']},
+                2: {'ghost': 'doneW', 'invariant': ['all((w in result) == (%s or (w in doneW and tm_accepted(T, w, max_steps))) for w in allwords())' % (_ACC % '< i'), '0 <= i']}},
+         theories=['word', 'tm'], props=['C02'])
